@@ -14,3 +14,35 @@ package types
 //@   ensures len(result) == 1 && result[0] == unbech32(m.Auditor)
 
 //@ property C06 := (MsgSignProviderAttributes).GetSigners#*, (MsgDeleteProviderAttributes).GetSigners#*
+
+// ---- C16: events render to, and parse back from, attribute lists ----
+//@ import sdk "github.com/cosmos/cosmos-sdk/types"
+//@ spec carriesAudit(attrs: []sdk.Attribute, o: str, a: str): bool =
+//@     attrHas(attrs, "owner") && attrVal(attrs, "owner") == bech32(o) && attrHas(attrs, "auditor") && attrVal(attrs, "auditor") == bech32(a)
+//@ spec carriesAHead(attrs: []sdk.Attribute, action: str): bool =
+//@     attrHas(attrs, "module") && attrVal(attrs, "module") == "audit" && attrHas(attrs, "action") && attrVal(attrs, "action") == action
+//@ func TrustedAuditorEVAttributes
+//@   fresh
+//@   ensures len(result) == 2 && result[0].Key == "owner" && result[0].Value == bech32(addrBytes(owner)) && result[1].Key == "auditor" && result[1].Value == bech32(addrBytes(auditor))
+//@ func ParseEVTTrustedAuditor
+//@   ensures [roundtrip] forall o: str, a: str {bech32(o), bech32(a)} :: old(carriesAudit(attrs, o, a)) ==> result2 == nil
+//@        && typeis(result0, sdk.AccAddress) && unbox(result0, sdk.AccAddress) == o && typeis(result1, sdk.AccAddress) && unbox(result1, sdk.AccAddress) == a
+//@ func NewEventTrustedAuditorCreated
+//@   ensures result.Owner == owner && result.Auditor == auditor
+//@ func NewEventTrustedAuditorDeleted
+//@   ensures result.Owner == owner && result.Auditor == auditor
+//@ func (EventTrustedAuditorCreated).ToSDKEvent
+//@   ensures evType(result) == "akash.v1" && carriesAHead(evAttrs(result), "audit-trusted-auditor-created") && carriesAudit(evAttrs(result), addrBytes(ev.Owner), addrBytes(ev.Auditor))
+//@ func (EventTrustedAuditorDeleted).ToSDKEvent
+//@   ensures evType(result) == "akash.v1" && carriesAHead(evAttrs(result), "audit-trusted-auditor-deleted") && carriesAudit(evAttrs(result), addrBytes(ev.Owner), addrBytes(ev.Auditor))
+//@ func ParseEvent
+//@   ensures [foreign] ev.Type != "akash.v1" || ev.Module != "audit" ==> result1 != nil
+//@   ensures [created] forall o: str, a: str {bech32(o), bech32(a)} :: ev.Type == "akash.v1" && ev.Module == "audit" && ev.Action == "audit-trusted-auditor-created" && old(carriesAudit(ev.Attributes, o, a)) ==>
+//@        result1 == nil && typeis(result0, EventTrustedAuditorCreated)
+//@        && unbox(unbox(result0, EventTrustedAuditorCreated).Owner, sdk.AccAddress) == o && unbox(unbox(result0, EventTrustedAuditorCreated).Auditor, sdk.AccAddress) == a
+//@   ensures [deleted] forall o: str, a: str {bech32(o), bech32(a)} :: ev.Type == "akash.v1" && ev.Module == "audit" && ev.Action == "audit-trusted-auditor-deleted" && old(carriesAudit(ev.Attributes, o, a)) ==>
+//@        result1 == nil && typeis(result0, EventTrustedAuditorDeleted)
+//@        && unbox(unbox(result0, EventTrustedAuditorDeleted).Owner, sdk.AccAddress) == o && unbox(unbox(result0, EventTrustedAuditorDeleted).Auditor, sdk.AccAddress) == a
+
+//@ property C16 := TrustedAuditorEVAttributes#*, ParseEVTTrustedAuditor#*, NewEventTrustedAuditorCreated#*, NewEventTrustedAuditorDeleted#*,
+//@     (EventTrustedAuditorCreated).ToSDKEvent#*, (EventTrustedAuditorDeleted).ToSDKEvent#*, ParseEvent#*
